@@ -45,4 +45,8 @@ def inBox (lb ub x : List F64) : Bool :=
   x.length == lb.length && lb.length == ub.length &&
   (zip3 (fun l u v => if F64.inBox1 l u v then F64.one else F64.zero) lb ub x).all (· == F64.one)
 
+/-- `pre_max` (optimize.c): the preconditioner handed to the algorithm when MAXIMIZING is the user's preconditioner with every
+    component negated (the algorithm minimizes -f, whose approximate Hessian is -H) -/
+def preMax (vpre : List F64) : List F64 := vpre.map F64.neg
+
 end Nlopt.Glue
